@@ -250,3 +250,30 @@ Proof.
   - cbn [rok]. repeat split; vm_compute; reflexivity.
   - split; vm_compute; reflexivity.
 Qed.
+
+(* `[1: ]` : the slice default `length` is inserted after `:` before ANY `]`,
+   so a create-map operator without right operand in a plain collect is
+   accepted (finding colon-close) *)
+Definition w_colon : op := table_op "createMapOpType" [].
+Definition w_colon_close_raw : list rtok :=
+  [ROpen BCollect; ROp w_one None false; ROp w_colon None false; RClose BCollect false].
+
+Lemma colon_close_accepted :
+  o_nargs w_colon = 2 /\
+  parse_raw w_colon_close_raw =
+    Ok (Some (Node collect_op None
+               (Some (Node w_colon (Some (Node w_one None None)) (Some (Node length_inserted None None)))))).
+Proof. split; vm_compute; reflexivity. Qed.
+
+Lemma colon_close_refuted :
+  exists raw o t, List.In (ROp o None false) raw /\ o_nargs o = 2 /\
+    List.last raw RTraverseArrayCollect = RClose BCollect false /\
+    List.nth 2 raw RTraverseArrayCollect = ROp o None false /\ List.length raw = 4%nat /\
+    parse_raw raw = Ok (Some t).
+Proof.
+  exists w_colon_close_raw, w_colon. eexists.
+  split; [right; right; left; reflexivity|].
+  split; [exact (proj1 colon_close_accepted)|].
+  split; [reflexivity|]. split; [reflexivity|]. split; [reflexivity|].
+  exact (proj2 colon_close_accepted).
+Qed.
